@@ -430,7 +430,7 @@ func (r *FnRun) constVal(c *ssa.Const) Val {
 		return Scalar{tb.BoolC(constant.BoolVal(c.Value))}
 	case isString(t):
 		s := constant.StringVal(c.Value)
-		return r.e.constString(s)
+		return r.constString(s) // with the content facts of the constant
 	case isFloat(t):
 		f, _ := constant.Float64Val(c.Value)
 		w, _, _ := basicInfo(t)
